@@ -22,7 +22,7 @@ OutOK(M, Y) == IF M.cyclic THEN IsFixpoint(M, Y) ELSE Y = Converged(M)
 \* C04: every input equals its source through the index chain and the unit conversion (relation on observed values)
 InOK(M, Y, X, chk) == \A k \in 1..Len(chk) : X[chk[k]] = InVal(M, Y, chk[k])
 
-FullOK(M, dYspec, full) == IF M.cyclic THEN IsTotalAll(M, full) ELSE full = dYspec
+FullOK(M, Yref, dYspec, full) == IF M.cyclic THEN IsTotalAll(M, Yref, full) ELSE full = dYspec
 
 BlocksOK(M, dY, c, vois) ==
     \A k \in 1..Len(c.blocks) :
@@ -31,9 +31,9 @@ BlocksOK(M, dY, c, vois) ==
             wrt == vois.wrt[b.wrt]
         IN b.m = (IF c.scaled THEN ScaledBlock(M, dY, of, wrt) ELSE Block(M, dY, of, wrt))
 
-JudgeCfg(M, dYspec, c, vois) ==
+JudgeCfg(M, Yref, dYspec, c, vois) ==
     LET dY == IF M.cyclic THEN c.full ELSE dYspec
-    IN [full |-> FullOK(M, dYspec, c.full), blocks |-> BlocksOK(M, dY, c, vois)]
+    IN [full |-> FullOK(M, Yref, dYspec, c.full), blocks |-> BlocksOK(M, dY, c, vois)]
 
 \* C02: adjoint identity <w, A v> = <A^T w, v> evaluated exactly on observed vectors
 AdjOK(op) == RDot(op.w, op.av) = RDot(op.atw, op.v)
@@ -61,12 +61,12 @@ RelOK(M, r) ==
 Judge(c) ==
     LET M == c.M
         dYspec == IF M.cyclic THEN <<>> ELSE TotalAll(M)
-    IN [oracle |-> IF M.cyclic THEN IsFixpoint(M, c.ref.out) /\ IsTotalAll(M, c.ref.full)
+    IN [oracle |-> IF M.cyclic THEN IsFixpoint(M, c.ref.out) /\ IsTotalAll(M, c.ref.out, c.ref.full)
                    ELSE c.ref.out = Converged(M) /\ c.ref.full = dYspec,
         runs |-> [k \in 1..Len(c.runs) |->
                      [out |-> IF c.runs[k].fix THEN OutOK(M, c.runs[k].out) ELSE TRUE,
                       inp |-> InOK(M, c.runs[k].out, c.runs[k].inp, c.runs[k].chk)]],
-        cfgs |-> [k \in 1..Len(c.cfgs) |-> JudgeCfg(M, dYspec, c.cfgs[k], c.vois)],
+        cfgs |-> [k \in 1..Len(c.cfgs) |-> JudgeCfg(M, c.ref.out, dYspec, c.cfgs[k], c.vois)],
         adj |-> [k \in 1..Len(c.adj) |-> AdjOK(c.adj[k])],
         rel |-> [k \in 1..Len(c.rel) |-> RelOK(M, c.rel[k])],
         jv |-> IF M.cyclic THEN <<>> ELSE [k \in 1..Len(c.jv) |-> JvOK(M, dYspec, c.jv[k], c.vois)],
